@@ -1,6 +1,6 @@
 (* Finite-table obligations over coq/Gen/Generated.v (regenerated from /repo on every check). *)
 From Coq Require Import List String Ascii Bool NArith ZArith.
-From Yae Require Import Base.Sexp Gen.Generated Model.Lexer.
+From Yae Require Import Base.Sexp Gen.Generated Model.Lexer Model.Conc Model.Api.
 Import ListNotations.
 Open Scope string_scope.
 
@@ -51,4 +51,12 @@ Proof. vm_compute. reflexivity. Qed.
 Fixpoint upto (n : nat) : list N := match n with O => [] | S m => upto m ++ [N.of_nat m] end.
 Lemma letter_table_ascii :
   forallb (fun c => Bool.eqb (in_ranges c letter_ranges) (is_ascii_alpha c)) (upto 128) = true.
+Proof. vm_compute. reflexivity. Qed.
+
+(* C14: the inventory of package-level mutable state written outside init is the one Model/Conc.v covers *)
+Lemma shared_state_inventory : Generated.shared_state = Conc.modelled_shared_state.
+Proof. vm_compute. reflexivity. Qed.
+
+(* C12: the places where the source installs a deferred recover are the ones Model/Api.v assumes *)
+Lemma recover_sites_pinned : Generated.recover_sites = Api.modelled_recover_sites.
 Proof. vm_compute. reflexivity. Qed.
